@@ -527,3 +527,56 @@ def rule_G4(ctx):
     if n < 5:
         raise AnalysisError("fewer than 5 membership-guarded statements found")
     return res
+
+
+# ====================================================================== G5
+DICT_FIELDS = ("next", "prev", "ctxs")
+
+
+def rule_G5(ctx):
+    """Truth of a decision map is the truth of its values: `next` (transition id -> decided
+    true/false), `prev` and `ctxs` of a record are dicts, so any()/all() applied to the field
+    itself looks at the keys - non-empty strings, always true - and merely tests that the dict
+    is not empty.  Every sibling site reads the values (`.values()`, `.items()`, `[k]`)."""
+    res = RuleResult("G5", "any()/all() over a record's decision map looks at its values, "
+                           "never at the dict itself (its keys)")
+    prog = ctx.prog
+    n = 0
+    for f in prog.all_functions():
+        if f.module.short not in ("conducting", "machines"):
+            continue
+        for c in calls_in(f.node):
+            if isinstance(c.func, ast.Name) and c.func.id in ("any", "all") and len(c.args) == 1:
+                a0 = c.args[0]
+                # any(x for x in D) iterates keys as well
+                src = a0
+                if isinstance(a0, (ast.GeneratorExp, ast.ListComp)) and len(a0.generators) == 1 \
+                        and isinstance(a0.elt, ast.Name) and isinstance(
+                        a0.generators[0].target, ast.Name) and \
+                        a0.elt.id == a0.generators[0].target.id and not a0.generators[0].ifs:
+                    src = a0.generators[0].iter
+                if isinstance(src, ast.Subscript) and isinstance(src.slice, ast.Constant) and \
+                        src.slice.value in DICT_FIELDS:
+                    n += 1
+                    res.violated((f.qualname, norm_src(c)), Finding(
+                        "G5", f.file, f.qualname, "truth of the keys: " + norm_src(c),
+                        "%s() is applied to the dict %s itself: it iterates the keys (always "
+                        "true), so this only tests that the map is not empty, not whether any "
+                        "decision in it is true" % (c.func.id, unparse(src)), line=c.lineno))
+                elif "['next']" in unparse(a0).replace('"', "'") or \
+                        "['prev']" in unparse(a0).replace('"', "'"):
+                    n += 1
+                    res.holds((f.qualname, norm_src(c)))
+    # sibling reads of the decision map (the convention the rule is inferred from)
+    reads = 0
+    for f in prog.all_functions():
+        if f.module.short == "conducting":
+            for x in ast.walk(f.node):
+                if isinstance(x, ast.Call) and isinstance(x.func, ast.Attribute) and x.func.attr in (
+                        "items", "values") and "['next']" in unparse(x.func.value).replace('"', "'"):
+                    reads += 1
+    res.facts["value_reads_of_next"] = reads
+    if reads < 1 and not res.findings:
+        raise AnalysisError("no read of a record's transition decisions found")
+    res.holds(("convention",), "%d site(s) read the decisions through .items()/.values()" % reads)
+    return res
